@@ -332,3 +332,62 @@ Definition ff_nunit (p a : Z) : Z :=
 Definition ff_dict (p : Z) : euc_dict Z :=
   mk_euc_dict Z (ff_ring p) (f_div (ff_ring p) (ff_inv p)) (f_rem (ff_ring p)) (f_is_unit (ff_ring p))
               (ff_inv p) (ff_nunit p).
+
+(* ------------------------------------------------------------------------------------------ *)
+(* Machine integers i32 / i64 / i128: the same operations with every intermediate result checked
+   against the width (the workspace builds with overflow-checks in every profile, so an overflow is
+   a panic = None).  [w = None] is BigInt.  Proofs/C15Int.v: with [w = None] these coincide with the
+   unbounded operations above, and a [Some] result at a finite width equals the unbounded result. *)
+Definition fits (k x : Z) : bool := (- 2 ^ (k - 1) <=? x) && (x <? 2 ^ (k - 1)).
+Definition chk (w : option Z) (x : Z) : option Z :=
+  match w with None => Some x | Some k => if fits k x then Some x else None end.
+
+Definition w_div (w : option Z) (a b : Z) : option Z := if b =? 0 then None else chk w (Z.quot a b).
+(* MIN % -1 panics like MIN / -1 *)
+Definition w_rem (w : option Z) (a b : Z) : option Z :=
+  if b =? 0 then None else do _ <- chk w (Z.quot a b); Some (Z.rem a b).
+Definition w_div_round (w : option Z) (a q : Z) : option Z :=
+  do d <- w_div w a q;
+  do r <- w_rem w a q;
+  if r =? 0 then Some d else
+  do nr <- (if 0 <? r then chk w (- r) else Some r);
+  do nq <- (if 0 <? q then chk w (- q) else Some q);
+  do df <- chk w (nq - nr);
+  let round_away := nr <=? df in
+  if negb round_away then Some d
+  else if Bool.eqb (a <? 0) (q <? 0) then chk w (d + 1)
+  else chk w (d - 1).
+(* self.is_one() || (-self).is_one() *)
+Definition w_is_unit (w : option Z) (a : Z) : option bool :=
+  if a =? 1 then Some true else do n <- chk w (- a); Some (n =? 1).
+Definition w_inv (w : option Z) (a : Z) : option (option Z) :=
+  do u <- w_is_unit w a; Some (if u then Some a else None).
+Definition w_normalized (w : option Z) (a : Z) : option Z :=
+  let u := int_nunit a in if u =? 1 then Some a else chk w (a * u).
+Definition w_divides (w : option Z) (x y : Z) : option bool :=
+  if x =? 0 then Some false else do r <- w_rem w y x; Some (r =? 0).
+(* num-integer: gcd panics exactly when the result 2^(k-1) is not representable;
+   lcm = (self * (other / gcd)).abs() *)
+Definition w_gcd (w : option Z) (a b : Z) : option Z := chk w (Z.gcd a b).
+Definition w_lcm (w : option Z) (a b : Z) : option Z :=
+  if (a =? 0) && (b =? 0) then Some 0 else
+  do g <- chk w (Z.gcd a b);
+  do q <- chk w (Z.quot b g);
+  do p <- chk w (a * q);
+  chk w (Z.abs p).
+Fixpoint w_egcd_loop (w : option Z) (fuel : nat) (r0 r1 s0 s1 t0 t1 : Z) : option (Z * Z * Z) :=
+  match fuel with
+  | O => None
+  | S f =>
+      if r0 =? 0 then Some (r1, s1, t1) else
+      do q <- chk w (Z.quot r1 r0);
+      do pr <- chk w (q * r0); do r' <- chk w (r1 - pr);
+      do ps <- chk w (q * s0); do s' <- chk w (s1 - ps);
+      do pt <- chk w (q * t0); do t' <- chk w (t1 - pt);
+      w_egcd_loop w f r' r0 s' s0 t' t0
+  end.
+Definition w_gcdx (w : option Z) (a b : Z) : option (Z * Z * Z) :=
+  do r <- w_egcd_loop w (int_fuel a b) b a 0 1 1 0;
+  let '(d, s, t) := r in
+  if 0 <=? d then Some (d, s, t) else
+  do d' <- chk w (0 - d); do s' <- chk w (0 - s); do t' <- chk w (0 - t); Some (d', s', t').
